@@ -381,6 +381,7 @@ def generate(rng, tier):
         sc["async"] = []
         sc["kind"] = KINDS[i % len(KINDS)]
         sc["seed"] = rng.randrange(10 ** 6)
+        sc["eq_machine"] = i % 4 == 1        # every instance of the class compares (and hashes) equal to the others
         scs.append(sc)
     for i in range(n // 8):
         # the machine is created by a MachineMixin model from its fully qualified class name, while
